@@ -133,6 +133,14 @@ func genExchange(x *X, env *sysEnv, cl *sClient, streaming bool) *exchange {
 	rs := &respScript{}
 	ex.resp = rs
 	rs.status = []int{200, 200, 200, 201, 204, 301, 302, 304, 400, 404, 418, 500, 502, 503, 206}[c.Intn(15, "status")]
+	if len(ex.body) > 0 && !streaming && c.Intn(5, "expect-continue") == 0 {
+		ex.expect = []string{"accept", "decline"}[c.Intn(2, "expect-mode")]
+		ex.hdr = append(ex.hdr, hdrKV{"Expect", "100-continue"})
+		if ex.expect == "decline" {
+			rs.status = []int{401, 403, 413, 417}[c.Intn(4, "decline-status")]
+			rs.closeAfter = true
+		}
+	}
 	nrh := c.Intn(4, "nresphdr")
 	usedR := map[string]bool{}
 	for i := 0; i < nrh; i++ {
@@ -317,10 +325,31 @@ func checkTransparentAs(x *X, prop string, env *sysEnv, ex *exchange, rh, th str
 	if sr.target != wantTarget {
 		x.Violate(prop, prop+"/target-differs", "exchange %d: client sent %q (backend base %q), backend saw %q, expected %q", ex.id, ex.target, baseOf(env, sr.backend), sr.target, wantTarget)
 	}
-	if !bytes.Equal(sr.body, ex.body) {
+	if ex.expect == "decline" {
+		// the backend answered without reading the body: nothing to compare on the body, but the
+		// client must not have been told to go ahead by anyone
+		for _, code := range got.interim {
+			if code == 100 {
+				x.Violate(prop, prop+"/100-continue-not-from-backend", "exchange %d: the backend declined the upload with %d without sending 100 Continue, but the client received a 100 Continue first (interim %v)", ex.id, rs.status, got.interim)
+			}
+		}
+		x.Probe("expect-declined-checked")
+	} else if !bytes.Equal(sr.body, ex.body) {
 		x.Violate(prop, prop+"/body-differs{request}", "exchange %d: request body of %d bytes arrived as %d bytes (err %q)", ex.id, len(ex.body), len(sr.body), sr.bodyErr)
 	}
-	if len(ex.body) > 0 && sr.chunked != ex.chunked {
+	if ex.expect == "accept" {
+		n100 := 0
+		for _, code := range got.interim {
+			if code == 100 {
+				n100++
+			}
+		}
+		if n100 != 1 {
+			x.Violate(prop, prop+fmt.Sprintf("/100-continue-count{%d}", n100), "exchange %d: the backend sent one 100 Continue, the client received %d (interim %v)", ex.id, n100, got.interim)
+		}
+		x.Probe("expect-accepted-checked")
+	}
+	if len(ex.body) > 0 && sr.chunked != ex.chunked && ex.expect != "decline" {
 		x.Violate(prop, prop+fmt.Sprintf("/request-reframed{chunked:%v->%v}", ex.chunked, sr.chunked), "exchange %d: request framing changed (client chunked=%v, backend saw chunked=%v, content-length %d)", ex.id, ex.chunked, sr.chunked, sr.clen)
 	}
 	sent := map[string][]string{}
@@ -362,7 +391,17 @@ func checkTransparentAs(x *X, prop string, env *sysEnv, ex *exchange, rh, th str
 	if got.status != rs.status {
 		x.Violate(prop, prop+fmt.Sprintf("/status-differs{%d->%d}", rs.status, got.status), "exchange %d: backend sent %d, client got %d", ex.id, rs.status, got.status)
 	}
-	if fmt.Sprint(got.interim) != fmt.Sprint(rs.interim) && !(len(got.interim) == 0 && len(rs.interim) == 0) {
+	gotInterim := got.interim
+	if ex.expect != "" {
+		// 100 Continue is judged above (it is per hop); here: the other interim responses
+		gotInterim = nil
+		for _, code := range got.interim {
+			if code != 100 {
+				gotInterim = append(gotInterim, code)
+			}
+		}
+	}
+	if fmt.Sprint(gotInterim) != fmt.Sprint(rs.interim) && !(len(gotInterim) == 0 && len(rs.interim) == 0) {
 		x.Violate(prop, prop+"/interim-responses-differ", "exchange %d: backend sent interim %v, client got %v", ex.id, rs.interim, got.interim)
 	}
 	wantBody := rs.body
